@@ -397,3 +397,9 @@ Section SrvToCli.
     exact A13.
   Qed.
 End SrvToCli.
+
+Lemma executable_hypotheses e P sd th n vs k t0 x y now :
+  (hvalidb e P sd th n vs = true -> hvalid e P sd th n vs) /\
+  (hnowb P sd th n now = true -> hnow P sd th n now) /\
+  (live_startb k t0 x y = true -> live_start k t0 x y).
+Proof. split; [apply hvalidb_ok|split; [apply hnowb_ok|apply live_startb_ok]]. Qed.
